@@ -34,6 +34,8 @@ type echoState struct {
 	got      int
 	argsSeen string
 	repHdr   int
+	minHdr   int
+	errMsg   int
 	repOps   []recOp
 	errOps   []recOp
 }
@@ -80,8 +82,11 @@ func (p *echoFn) Process(fctx frugal.FContext, iprot, oprot *frugal.FProtocol) e
 	echo.argsSeen = canon(args.got)
 	echo.repHdr = len(frugal.VerifMarshalHeaders(fctx.ResponseHeaders()))
 	echo.repOps = recordReply(pf, fctx, p.method, thrift.REPLY, result)
-	ex := thrift.NewTApplicationException(frugal.APPLICATION_EXCEPTION_RESPONSE_TOO_LARGE,
-		fmt.Sprintf("Buffer size reached (%d)", limit))
+	emsg := fmt.Sprintf("Buffer size reached (%d)", limit)
+	ex := thrift.NewTApplicationException(frugal.APPLICATION_EXCEPTION_RESPONSE_TOO_LARGE, emsg)
+	opid, _ := fctx.ResponseHeader("_opid")
+	echo.minHdr = len(frugal.VerifMarshalHeaders(map[string]string{"_opid": opid}))
+	echo.errMsg = len(emsg)
 	echo.errOps = recordReply(pf, fctx, p.method, thrift.EXCEPTION, ex)
 	echo.mu.Unlock()
 	return p.SendReply(fctx, oprot, p.method, result)
@@ -101,12 +106,12 @@ func ensureMethod(proc *frugal.FBaseProcessor, known map[string]bool, method str
 // ---- NATS environment ------------------------------------------------------------------------
 
 type natsEnv struct {
-	srv        *natsserver.Server
-	url        string
-	spyConn    *nats.Conn
-	spy        *nats.Subscription
-	perProto   map[string]*natsSvc
-	seq        int
+	srv      *natsserver.Server
+	url      string
+	spyConn  *nats.Conn
+	spy      *nats.Subscription
+	perProto map[string]*natsSvc
+	seq      int
 }
 
 type natsSvc struct {
@@ -243,7 +248,7 @@ type respRecorder struct {
 	buf    bytes.Buffer
 }
 
-func (r *respRecorder) WriteHeader(c int)          { r.status = c; r.ResponseWriter.WriteHeader(c) }
+func (r *respRecorder) WriteHeader(c int) { r.status = c; r.ResponseWriter.WriteHeader(c) }
 func (r *respRecorder) Write(b []byte) (int, error) {
 	r.n += len(b)
 	r.buf.Write(b)
@@ -397,13 +402,20 @@ func doCall(q request) response {
 	ensureMethod(proc, known, q.Method)
 	ensureMethod(proc, known, "echo")
 
-	one := func(method string, hdrs, rhdrs map[string]int, argv, replyv *Val, full bool) (int, string, bool) {
-		fctx := mkContext(hdrs, q.TimeoutMs)
+	var mainCtx frugal.FContext
+	one := func(method string, hdrs, rhdrs map[string]int, argv, replyv *Val, full bool, reuse frugal.FContext) (int, string, bool) {
+		fctx := reuse
+		if fctx == nil {
+			fctx = mkContext(hdrs, q.TimeoutMs)
+		}
+		if full {
+			mainCtx = fctx
+		}
 		args := &tstruct{want: argv}
 		result := &tstruct{want: replyv}
 		echo.mu.Lock()
 		echo.proto, echo.argsHint, echo.reply, echo.rhdrs, echo.limit = q.Proto, argv, replyv, rhdrs, srvLimit
-		echo.got, echo.argsSeen, echo.repHdr, echo.repOps, echo.errOps = 0, "", 0, nil, nil
+		echo.got, echo.argsSeen, echo.repHdr, echo.repOps, echo.errOps, echo.minHdr, echo.errMsg = 0, "", 0, nil, nil, 0, 0
 		echo.mu.Unlock()
 		want, hdr, ops := expectedFrame(pf, fctx, method, args)
 		err := client.Call(fctx, method, args, result)
@@ -446,6 +458,7 @@ func doCall(q request) response {
 			r.Code, r.Msg = code, msg
 			r.ReqHdr, r.ReqOps = hdr, opsJSON(ops)
 			r.RepHdr, r.RepOps, r.ErrOps = echo.repHdr, opsJSON(echo.repOps), opsJSON(echo.errOps)
+			r.MinHdr, r.ErrMsgLen = echo.minHdr, echo.errMsg
 			r.Sent, r.SentOK, r.Replies, r.HTTPStatus = sent, sentOK, replies, statuses
 			r.ServerGot = echo.got
 			r.ArgsOK = echo.got == 0 || echo.argsSeen == canon(argv)
@@ -459,9 +472,11 @@ func doCall(q request) response {
 		}
 		return code, msg, resOK && echo.got == 1
 	}
-	one(q.Method, q.Hdrs, q.RHdrs, q.Args, q.Reply, true)
+	one(q.Method, q.Hdrs, q.RHdrs, q.Args, q.Reply, true, nil)
 	if q.Followup {
-		r.FollowCode, r.FollowMsg, r.FollowOK = one("echo", nil, nil, followArgs, followReply, false)
+		r.FollowCode, r.FollowMsg, r.FollowOK = one("echo", nil, nil, followArgs, followReply, false, nil)
+		// and once more with the very FContext (same op id, same headers) of the main call
+		r.Follow2Code, r.Follow2Msg, r.Follow2OK = one(q.Method, nil, nil, followArgs, followReply, false, mainCtx)
 	}
 	return r
 }
